@@ -100,6 +100,7 @@ func New(o Options) (*World, error) {
 	cfg.SYSTEM_SETTINGS.RetryAttempts = o.Attempts
 	cfg.SYSTEM_SETTINGS.RetryTimeoutS = 0
 	cfg.HTTP_SETTINGS.InputBufferMB = 200
+	cfg.FingerPrintType = 1 // FINGERPRINT_CityHash, the default
 	cc := &clconfig.ClokiConfig{Setting: &cfg}
 	w.Cfg = cc
 	wconfig.Cloki = cc
